@@ -190,6 +190,10 @@ func RunPropertyWith(pre *load.Program, preErr error, def PropertyDef, repo, roo
 	} else {
 		c.Prog = prog
 		c.Count("packages", len(prog.Pkgs))
+		if prog.Canonicalised > 0 {
+			c.Count("private_names_canonicalised", prog.Canonicalised)
+			c.Note("%d private identifiers (helpers, methods, types, fields or tables the rules name) carry other names in this tree; they were identified structurally and renamed back in memory before the rules ran", prog.Canonicalised)
+		}
 		if tier == "thorough" {
 			if p386, err := load.Load(repo, "386"); err != nil {
 				c.add(Obligation{Rule: def.ID + "-LOAD", Key: "load-386", Verdict: Undecided, Kind: "analysis-failure", Detail: err.Error()})
